@@ -4,7 +4,7 @@ A dimensionally homogeneous computation is covariant under a change of units.  D
 on every method branch, that each operation on the way to the result is homogeneous and that
 the result has unit length¹·amplitude⁰·count⁰ (AFFINE: grid-boundary coordinates only enter
 as differences, so translating the grid changes nothing).  EXHAUST/VOLUME/PEAK are the
-structural clauses (method dispatch, box volume per droplet over the free axes, peak search
+structural clauses (per-axis wave vectors of the spectrum, method dispatch, box volume per droplet over the free axes, peak search
 that skips k = 0 consistently).  The structure factor's own units are decided as in C16.
 """
 
@@ -18,12 +18,15 @@ def check(ctx: Ctx):
     ctx.explain("DIM unit inference along every path to the returned length scale on all three method branches (with the units of get_structure_factor decided from its source), plus EXHAUST/VOLUME/PEAK.")
     sub = Ctx(ctx.model, ctx.prop, ctx.tier)
     spectrum.check_sf_units(sub)
+    spectrum.check_sf_structure(sub)
     for f in sub.findings:
-        ctx.findings.append(f)
+        if f.rule in ("DIM", "AFFINE", "INDEXAGREE"):
+            ctx.findings.append(f)
     ctx.functions |= sub.functions
     seen = spectrum.check_ls_units(ctx)
     spectrum.check_ls_structure(ctx)
     ctx.expect("DIM", 6)
+    ctx.expect("INDEXAGREE", 2)
     ctx.expect("EXHAUST", 1)
     ctx.expect("VOLUME", 2)
     ctx.expect("PEAK", 2)
